@@ -482,3 +482,47 @@ func rr2Constructors(w *World) {
 	}
 	w.floor("composite-node constructors in package ast", n, 30)
 }
+
+
+// rr3SameBuffer (RR3): the byte buffer whose offsets the lexer records (the rune reader's data)
+// is the very buffer ast.NewFileInfo is given; otherwise every recorded token offset is resolved
+// against different bytes and the AST no longer reproduces the source.
+func rr3SameBuffer(w *World) {
+	w.rule("RR3")
+	p := w.pkg("parser")
+	nl := w.fn("parser", "newLexer")
+	if p == nil || nl == nil {
+		return
+	}
+	info := p.TypesInfo
+	var readerData, infoData ast.Expr
+	ast.Inspect(nl.Decl.Body, func(x ast.Node) bool {
+		switch e := x.(type) {
+		case *ast.CompositeLit:
+			if tv, ok := info.Types[e]; ok && strings.HasSuffix(tv.Type.String(), ".runeReader") {
+				for _, el := range e.Elts {
+					if kv, ok := el.(*ast.KeyValueExpr); ok && render(kv.Key) == "data" {
+						readerData = kv.Value
+					}
+				}
+			}
+		case *ast.CallExpr:
+			if f := callee(info, e); f != nil && f.Name() == "NewFileInfo" && len(e.Args) == 2 {
+				infoData = e.Args[1]
+			}
+		}
+		return true
+	})
+	switch {
+	case readerData == nil || infoData == nil:
+		w.undecided("same-buffer", nl.Decl.Pos(), "cannot find both the runeReader{data: …} literal and the ast.NewFileInfo(name, contents) call in newLexer")
+	case render(readerData) == render(infoData):
+		if _, isIdent := ast.Unparen(readerData).(*ast.Ident); isIdent {
+			w.ok("same-buffer", readerData.Pos(), "the rune reader and the FileInfo are built from the same variable "+render(readerData)+": token offsets index the bytes FileInfo holds")
+		} else {
+			w.undecided("same-buffer", readerData.Pos(), "both use the expression "+render(readerData)+", which is not a plain variable")
+		}
+	default:
+		w.violation("same-buffer", readerData.Pos(), "the lexer reads "+render(readerData)+" but the FileInfo is built over "+render(infoData)+": offsets recorded by the lexer are resolved against a different buffer (e.g. one still carrying the byte-order mark), so token text, positions and trailing trivia are shifted")
+	}
+}
